@@ -440,4 +440,24 @@ theorem mapM_some_mem {α β : Type} {f : α → Option β} : ∀ {l : List α} 
           · exact Or.inl h.symm
           · exact Or.inr h
 
+/-- a well-formed block array is determined by its 65536 bits -/
+theorem words_ext {ws ws' : Words} (h : WF ws) (h' : WF ws')
+    (hb : ∀ q, q < 65536 → bitAt ws q = bitAt ws' q) : ws = ws' := by
+  apply List.ext_getElem (by rw [h.1, h'.1])
+  intro i hi hi'
+  have hi1 : i < 1024 := by rw [← h.1]; exact hi
+  apply Nat.eq_of_testBit_eq
+  intro j
+  by_cases hj : j < 64
+  · have := hb (64 * i + j) (by omega)
+    rw [bitAt_eq_testBit, bitAt_eq_testBit] at this
+    have e1 : (64 * i + j) / 64 = i := by omega
+    have e2 : (64 * i + j) % 64 = j := by omega
+    rw [e1, e2] at this
+    simpa [word, List.getD_eq_getElem?_getD, hi, hi'] using this
+  · have hw : ws[i] < 2 ^ 64 := h.2 _ (List.getElem_mem hi)
+    have hw' : ws'[i] < 2 ^ 64 := h'.2 _ (List.getElem_mem hi')
+    have hp : 2 ^ 64 ≤ 2 ^ j := Nat.pow_le_pow_right (by omega) (by omega)
+    rw [Nat.testBit_lt_two_pow (Nat.lt_of_lt_of_le hw hp), Nat.testBit_lt_two_pow (Nat.lt_of_lt_of_le hw' hp)]
+
 end SSV.PortSet
